@@ -1,30 +1,47 @@
 import Kaira.Verbs18
 import Kaira.Verbs16
 import Kaira.Verbs17
+import Kaira.VerbsMod
 open Kaira
+
+structure DState where
+  tables : Verbs.Tables := []
 
 def natVerb (verb : String) (args : List String) : Option String :=
   match args.mapM String.toNat? with
   | some ns => Verbs.c18 verb ns
   | none => none
 
-def dispatch (line : String) : String :=
-  match (line.trimAscii.toString.splitOn " ").filter (· ≠ "") with
-  | [] => "bad-op"
-  | verb :: args =>
-    let r := (natVerb verb args).orElse fun _ =>
-      ((Verbs.c16 (verb :: args)).orElse fun _ => Verbs.c17 (verb :: args))
-    match r with
-    | some out => out
-    | none => "bad-op"
+def firstSome (fs : List (Unit → Option String)) : Option String :=
+  match fs with
+  | [] => none
+  | f :: rest => match f () with
+    | some r => some r
+    | none => firstSome rest
 
-partial def loop (h : IO.FS.Stream) (out : IO.FS.Stream) : IO Unit := do
+def dispatch (st : DState) (line : String) : DState × String :=
+  match (line.trimAscii.toString.splitOn " ").filter (· ≠ "") with
+  | [] => (st, "bad-op")
+  | verb :: args =>
+    match Verbs.defTable (verb :: args) with
+    | some (n, t) => ({ st with tables := (n, t) :: st.tables.filter (·.1 ≠ n) }, "ok")
+    | none =>
+      let toks := verb :: args
+      let r := firstSome [
+        fun _ => natVerb verb args,
+        fun _ => Verbs.c16 toks,
+        fun _ => Verbs.c17 toks,
+        fun _ => Verbs.cmod st.tables toks]
+      (st, r.getD "bad-op")
+
+partial def loop (h : IO.FS.Stream) (out : IO.FS.Stream) (st : DState) : IO Unit := do
   let line ← h.getLine
   if line.isEmpty then return ()
-  out.putStrLn (dispatch line)
-  loop h out
+  let (st', o) := dispatch st line
+  out.putStrLn o
+  loop h out st'
 
 def main : IO Unit := do
   let out ← IO.getStdout
-  loop (← IO.getStdin) out
+  loop (← IO.getStdin) out {}
   out.flush
